@@ -332,5 +332,5 @@ def exit_saves(ctx, rule: str) -> None:
                       f"__exit__ saves to `{show(arg) if arg is not None else None}`", where=f.where(sv.call))
         uses_exc = [s for s in own_walk(f.node) if isinstance(s, ast.Name) and s.id in f.params[1:] and isinstance(s.ctx, ast.Load)]
         ctx.rep.check(not uses_exc, rule, c + "/exc-independent", "__exit__ does not look at the exception", "__exit__ behaves differently when an exception propagates", where=f.where())
-        truthy = [r for r in return_exprs(f) if not (isinstance(r, ast.Constant) and not r.value)]
+        truthy = [r for n, r in fv.returns() if not (isinstance(r, ast.Constant) and not r.value)]
         ctx.rep.check(not truthy, rule, c + "/no-swallow", "__exit__ returns a falsy value", "__exit__ may return a truthy value and swallow the exception", where=f.where())
